@@ -359,7 +359,7 @@ func parseLoopFacts(fn *ast.FuncDecl) (types, mapVals []uint64, ordered bool) {
 				}
 			}
 		case *ast.BinaryExpr:
-			if id, ok := n.X.(*ast.Ident); ok && id.Name == "typ" && n.Op == token.NEQ {
+			if id, ok := n.X.(*ast.Ident); ok && id.Name == "typ" && (n.Op == token.NEQ || n.Op == token.EQL) {
 				if v, ok := litUint(n.Y); ok {
 					mapVals = append(mapVals, v)
 					if !seen[v] {
